@@ -174,6 +174,12 @@ def run_case(case):
                 with np.errstate(all='ignore'):
                     obj.compute()               # asking for the result between batches must not disturb later ones
         with np.errstate(all='ignore'):
+            if between:
+                first = obj.compute()
+                try:
+                    first[...] = 7.0      # the caller overwrites the array it was given; the next compute() is unaffected
+                except (ValueError, TypeError):
+                    pass
             return obj, np.asarray(obj.compute())
 
     obj, got = execute(spec)
